@@ -128,7 +128,7 @@ ReportCases(sh) ==
 (***************************************************************************)
 RefDates == <<Ord(2020, 3, 15), Ord(2020, 1, 1), Ord(2021, 1, 3), Ord(2020, 3, 1), Ord(2020, 12, 31), Ord(2024, 2, 29)>>
 (* record dates relative to the reference date *)
-Offsets == <<-400, -366, -95, -35, -29, -8, -7, -6, -1, 0, 1, 6, 7, 31>>
+Offsets == <<-400, -366, -95, -35, -29, -8, -7, -6, -1, -1, 0, 0, 1, 6, 7, 31>>     \* some dates twice
 FilterFile(ref) ==
     [i \in 1..Len(Offsets) |->
         LET r == RecOf(ref + Offsets[i], "", IF i % 4 = 0 THEN <<"day #rec=R" \o NatStr(i % 3) \o " #all">> ELSE <<>>,
@@ -140,7 +140,7 @@ Q(at, since, until) == [NoQuery EXCEPT !.at = at, !.since = since, !.until = unt
 P(kind, o) == PeriodOf(kind, o)
 WeekPat(o) == NatStr(IsoWeekYear(o)) \o "-W" \o Pad2(IsoWeek(o))
 FilterRunsFor(ref) ==
-    LET dates == {ref + Offsets[i] : i \in {3, 6, 7, 9, 10, 11}} \cup {ref + 2}
+    LET dates == {ref + Offsets[i] : i \in {3, 6, 7, 9, 11, 13}} \cup {ref + 2}
         dateRuns == UNION {{RunQ("json:date", <<"json", "--date", D(d)>>, Q(d, -1, -1)),
                             RunQ("json:since", <<"json", "--since", D(d)>>, Q(-1, d, -1)),
                             RunQ("json:until", <<"json", "--until", D(d)>>, Q(-1, -1, d)),
